@@ -103,6 +103,14 @@ fn math_int(b: &[u64], n: u32) -> Option<u128> {
 /// independent walk over an encoded field section (RFC 9204 4.5): for each field line whether its
 /// name is a pseudo-header; Err if anything but static-table / literal representations is used
 fn walk_section(b: &[u64]) -> Result<Vec<bool>, String> {
+    walk_fields(b).map(|v| v.iter().map(|(k, _)| k.first() == Some(&b':')).collect())
+}
+
+/// independent decoder of an encoded field section (RFC 9204 4.5 with the frozen static table):
+/// the (name, value) pairs in emission order; Err if anything but static-table / literal
+/// representations is used
+fn walk_fields(b: &[u64]) -> Result<Vec<(Vec<u8>, Vec<u8>)>, String> {
+    use super::static_ref::STATIC_REF;
     fn int(b: &[u64], pos: &mut usize, n: u32) -> Result<u64, String> {
         let v = math_int(&b[*pos..], n).ok_or("truncated integer")?;
         let mask = (1u64 << n) - 1;
@@ -134,12 +142,11 @@ fn walk_section(b: &[u64]) -> Result<Vec<bool>, String> {
             Ok(raw)
         }
     }
-    let static_pseudo = |i: u64| i <= 1 || (15..=28).contains(&i) || (63..=71).contains(&i);
     if b.len() < 2 || b[0] != 0 || b[1] != 0 {
         return Err("section prefix is not 00 00 (required insert count 0, base 0)".into());
     }
     let mut pos = 2;
-    let mut flags = vec![];
+    let mut flags: Vec<(Vec<u8>, Vec<u8>)> = vec![];
     while pos < b.len() {
         let x = b[pos];
         if x & 0x80 != 0 {
@@ -150,7 +157,7 @@ fn walk_section(b: &[u64]) -> Result<Vec<bool>, String> {
             if i > 98 {
                 return Err(format!("static index {} out of range", i));
             }
-            flags.push(static_pseudo(i));
+            flags.push((STATIC_REF[i as usize].0.as_bytes().to_vec(), STATIC_REF[i as usize].1.as_bytes().to_vec()));
         } else if x & 0x40 != 0 {
             if x & 0x10 == 0 {
                 return Err("literal field line with a dynamic name reference".into());
@@ -159,12 +166,12 @@ fn walk_section(b: &[u64]) -> Result<Vec<bool>, String> {
             if i > 98 {
                 return Err(format!("static index {} out of range", i));
             }
-            string(b, &mut pos, 7)?;
-            flags.push(static_pseudo(i));
+            let v = string(b, &mut pos, 7)?;
+            flags.push((STATIC_REF[i as usize].0.as_bytes().to_vec(), v));
         } else if x & 0x20 != 0 {
             let name = string(b, &mut pos, 3)?;
-            string(b, &mut pos, 7)?;
-            flags.push(name.first() == Some(&b':'));
+            let v = string(b, &mut pos, 7)?;
+            flags.push((name, v));
         } else {
             return Err("post-base representation with a zero-capacity table".into());
         }
@@ -208,6 +215,17 @@ pub fn oracle(f: u32, a: &Args, out: &Args) -> Option<(&'static str, String)> {
                 Ok(flags) => {
                     let mut seen_regular = false;
                     let mut bad = None;
+                    // what an independent decoder reads is exactly the map that went in
+                    if let Ok(fields) = walk_fields(&out[1]) {
+                        let mut got: Vec<(String, String)> = fields.iter().map(|(k, v)| (String::from_utf8_lossy(k).into_owned(), String::from_utf8_lossy(v).into_owned())).collect();
+                        let mut want: Vec<(String, String)> = m.iter().map(|(k, v)| (k.clone(), v.clone())).collect();
+                        got.sort();
+                        want.sort();
+                        if got != want {
+                            let diff = got.iter().find(|x| !want.contains(x)).cloned();
+                            bad = Some(format!("an independent decoder reads a different field set from the emitted section (e.g. {:?})", diff));
+                        }
+                    }
                     if flags.len() != m.len() {
                         bad = Some(format!("emitted section has {} field lines for {} fields", flags.len(), m.len()));
                     }
